@@ -246,7 +246,9 @@ def make_trace(tid, rng, nops=25, **opt):
     ngd = -(-capacity // (gtes * grain))
     if v in ("hosted", "footer", "stream"):
         vf, info = enc_vmdk.build_hosted(ents, present, capacity=capacity, grain=grain, gtes=gtes, footer=(v != "hosted"),
-                                         compressed=(v == "stream"), lba=rng.random() < 0.5, max_pos=npos + 1, tight=rng.random() < 0.6)
+                                         compressed=(v == "stream"), lba=rng.random() < 0.5, max_pos=npos + 1, tight=rng.random() < 0.6,
+                                         # header fields that do not influence the mapping: redundant directory offset, unclean-shutdown marker, version
+                                         rgd_off=rng.choice([0, 0, 21, 1 << 40]), unclean=rng.choice([0, 1]), version=rng.choice([1, 1, 2, 3]))
     elif v == "cowd":
         vf, info = enc_vmdk.build_cowd(ents, present, capacity=capacity, grain=grain, max_pos=npos + 1)
     else:
